@@ -13,6 +13,7 @@ class C23(Monitor):
     def start(self, w):
         w.observe_windows = True
         self.last_obs = {'c': None, 's': None}
+        self.prio_idle_max = {'c': 0, 's': 0}
 
     def on_step(self, w, s):
         e = w.eps[s.ep]
@@ -24,7 +25,7 @@ class C23(Monitor):
             if s.op == 'prioritize' or (s.op == 'send_headers' and any(a.get(k) is not None for k in ('pw', 'pd', 'pe'))):
                 self.probe('priority_call')
                 pw, pd, sid = a.get('pw'), a.get('pd'), a.get('sid')
-                valid = client and (pw is None or 1 <= pw <= 256) and (pd is None or pd != sid) and \
+                valid = client and (pw is None or 1 <= pw <= 256) and (pd is None or (pd != sid and 0 <= pd <= MAXID)) and \
                     isinstance(sid, int) and 1 <= sid <= MAXID
                 if not valid:
                     self.nontrivial = True
@@ -39,7 +40,9 @@ class C23(Monitor):
             return
         if s.snap['closed']:
             return
-        # received PRIORITY frames (also as fields of HEADERS)
+        self._headers_with_priority(w, s, e)
+        self._idle_ids(w, s, e)
+        # received PRIORITY frames
         prios = [(i, u) for i, u in enumerate(s.units) if u.type == C.PRIORITY and u.bad is None]
         if not prios:
             return
@@ -86,3 +89,60 @@ class C23(Monitor):
                 if (ev['weight'], ev['depends_on'], ev['exclusive']) != exp or ev['stream_id'] != a['sid']:
                     self.fail('priority-round-trip', 'PriorityUpdated differs from the prioritize() arguments', s,
                               got=(ev['weight'], ev['depends_on'], ev['exclusive']), want=exp)
+
+    HDR_EVENTS = ('RequestReceived', 'ResponseReceived', 'TrailersReceived', 'InformationalResponseReceived')
+
+    def _headers_with_priority(self, w, s, e):
+        """priority fields of a HEADERS frame (whatever the number of CONTINUATION frames behind it)"""
+        if not s.exact or s.quirk or not s.ok:
+            return
+        u = s.units[0]
+        if u.type != C.HEADERS or u.prio is None or u.bad is not None:
+            return
+        dep, excl, wt = u.prio
+        if dep == u.sid:
+            return
+        hdr = [(i, g) for i, g in enumerate(s.events) if g['t'] in self.HDR_EVENTS and g.get('stream_id') == u.sid]
+        if not hdr:
+            return          # block ignored or refused by stream state: nothing is reported at all
+        self.probe('headers_with_priority')
+        if u.block_frames is not None and len(u.block_frames) > 1:
+            self.probe('headers_with_priority_continued')
+        i, g = hdr[0]
+        j = g.get('priority_updated')
+        pe = s.events[j] if isinstance(j, int) and 0 <= j < len(s.events) else None
+        want = {'t': 'PriorityUpdated', 'stream_id': u.sid, 'weight': wt + 1, 'depends_on': dep, 'exclusive': excl}
+        if pe is None or any(pe.get(k) != v for k, v in want.items()):
+            self.fail('headers-priority-lost', 'priority fields of a HEADERS frame are not attached to the header event', s,
+                      event=g['t'], got=pe, want=want, frames=len(u.block_frames or ()))
+            return
+        if sum(1 for x in s.events if x['t'] == 'PriorityUpdated') != 1:
+            self.fail('headers-priority-count', 'one HEADERS frame with priority fields gave several PriorityUpdated events', s)
+            return
+        if not s.tainted:
+            of = origin_of(w, s.ep, u)
+            if of is not None and of.src_step.kind == 'call' and of.src_step.op == 'send_headers':
+                a = of.src_step.args
+                exp = (a['pw'] if a.get('pw') is not None else 16, a['pd'] if a.get('pd') is not None else 0,
+                       bool(a['pe']) if a.get('pe') is not None else False)
+                self.probe('headers_priority_round_trip')
+                if (pe['weight'], pe['depends_on'], pe['exclusive']) != exp:
+                    self.fail('priority-round-trip', 'PriorityUpdated differs from the send_headers() priority arguments', s,
+                              got=(pe['weight'], pe['depends_on'], pe['exclusive']), want=exp)
+
+    def _idle_ids(self, w, s, e):
+        """a PRIORITY frame on an idle id does not use that id up: lower idle ids can still be opened"""
+        trk = e.trk
+        for i, u in enumerate(s.units):
+            if (u.type == C.PRIORITY and u.bad is None and s.pre[i] is None and not trk.is_mine(u.sid)
+                    and u.sid > s.snap['hi_peer'] and (s.ok or i < len(s.units) - 1)):
+                self.prio_idle_max[s.ep] = max(self.prio_idle_max[s.ep], u.sid)
+        if not s.exact or s.ok or e.client:
+            return
+        u = s.units[0]
+        if (u.type == C.HEADERS and u.bad is None and s.pre[0] is None and not trk.is_mine(u.sid)
+                and s.snap['hi_peer'] < u.sid <= self.prio_idle_max[s.ep]):
+            self.probe('open_below_prioritised_idle_id')
+            if s.exc['type'] == 'StreamIDTooLowError':
+                self.fail('priority-used-up-stream-ids', 'HEADERS on an idle id refused as too low after a PRIORITY frame on a higher idle id', s,
+                          sid=u.sid, prioritised=self.prio_idle_max[s.ep], highest_opened=s.snap['hi_peer'])
